@@ -44,6 +44,12 @@ type Op struct {
 	Hs  []int  `json:"h,omitempty"`
 	H   int    `json:"hh,omitempty"` // AR: the main handler
 	Hs2 []int  `json:"h2,omitempty"` // AR: after
+	// R / AR: number of constraints chained onto the route at declaration (WhereInt, Where); the
+	// model does not see them (a re-registration in the same step rewrites the node identically)
+	Cons int `json:"cons,omitempty"`
+	// WH: `Where…` on the route declared by op number RI (router A, version tree Ver (-1 none), path P)
+	RI int   `json:"ri,omitempty"`
+	P  []int `json:"p,omitempty"`
 }
 
 // Target is a route served by router 0.
@@ -119,6 +125,14 @@ func EncOp(l *hx.Line, o Op) {
 		EncHs(l, o.Hs)
 	case "W":
 		l.Nat(o.A)
+	case "WH":
+		l.Nat(o.A)
+		if o.Ver < 0 {
+			l.Nat(0)
+		} else {
+			l.Nat(1).Nat(o.Ver)
+		}
+		EncHs(l, o.P)
 	case "AU":
 		EncHs(l, o.Hs)
 	case "AG":
@@ -410,7 +424,17 @@ func Build(script []Op, bo BuildOpts) (w *World, err error) {
 	var agroups []*app.Group
 	var avgroups []*app.VersionGroup
 	arrays := map[int][]app.HandlerFunc{}
-	for _, o := range script {
+	routeObjs := map[int]*route.Route{}
+	constrain := func(rt *route.Route, n int) {
+		for k := 0; k < n && rt != nil; k++ {
+			if k%2 == 0 {
+				rt.WhereInt("id")
+			} else {
+				rt.Where("tenant", "[a-z]+")
+			}
+		}
+	}
+	for oi, o := range script {
 		switch o.K {
 		case "NR":
 			w.Routers = append(w.Routers, router.MustNew(router.WithCancellationCheck(bo.Check), router.WithRouteCompilation(bo.Compiled)))
@@ -427,16 +451,19 @@ func Build(script []Op, bo BuildOpts) (w *World, err error) {
 		case "VG":
 			vgroups = append(vgroups, vrouters[o.A].Group(seg(o.Seg), rhs(o.Hs)...))
 		case "R":
+			var rt *route.Route
 			switch o.OK {
 			case "r":
-				w.Routers[o.A].GET(seg(o.Seg), rhs(o.Hs)...)
+				rt = w.Routers[o.A].GET(seg(o.Seg), rhs(o.Hs)...)
 			case "g":
-				rgroups[o.A].g.GET(seg(o.Seg), toHandlers(rhs(o.Hs))...)
+				rt = rgroups[o.A].g.GET(seg(o.Seg), toHandlers(rhs(o.Hs))...)
 			case "v":
-				vrouters[o.A].GET(seg(o.Seg), rhs(o.Hs)...)
+				rt = vrouters[o.A].GET(seg(o.Seg), rhs(o.Hs)...)
 			case "vg":
-				vgroups[o.A].GET(seg(o.Seg), rhs(o.Hs)...)
+				rt = vgroups[o.A].GET(seg(o.Seg), rhs(o.Hs)...)
 			}
+			routeObjs[oi] = rt
+			constrain(rt, o.Cons)
 		case "M":
 			var mo []route.MountOption
 			if o.Inh {
@@ -448,6 +475,10 @@ func Build(script []Op, bo BuildOpts) (w *World, err error) {
 			w.Routers[o.A].Mount(seg(o.Seg), w.Routers[o.B], mo...)
 		case "W":
 			w.Routers[o.A].Warmup()
+		case "WH":
+			if rt := routeObjs[o.RI]; rt != nil {
+				rt.WhereInt("id")
+			}
 		case "AU":
 			w.App.Use(ahs(o.Hs)...)
 		case "AG":
@@ -480,14 +511,17 @@ func Build(script []Op, bo BuildOpts) (w *World, err error) {
 			if len(o.Hs2) > 0 {
 				ro = append(ro, app.WithAfter(ahs(o.Hs2)...))
 			}
+			var rt *route.Route
 			switch o.OK {
 			case "a":
-				w.App.GET(seg(o.Seg), AH(o.H), ro...)
+				rt = w.App.GET(seg(o.Seg), AH(o.H), ro...)
 			case "ag":
-				agroups[o.A].GET(seg(o.Seg), AH(o.H), ro...)
+				rt = agroups[o.A].GET(seg(o.Seg), AH(o.H), ro...)
 			case "avg":
-				avgroups[o.A].GET(seg(o.Seg), AH(o.H), ro...)
+				rt = avgroups[o.A].GET(seg(o.Seg), AH(o.H), ro...)
 			}
+			routeObjs[oi] = rt
+			constrain(rt, o.Cons)
 		default:
 			return nil, fmt.Errorf("unknown op %q", o.K)
 		}
